@@ -3564,3 +3564,56 @@ def t_routetext( ctx ):
     elif tr is not None:
         res.bad( src, tr, 'trailer', 'components that do not form port/link pairs must be kept (and then validated or rejected), not dropped' )
     return res
+
+
+@rule( 'P-ROUTEFIRST', props=( 'C07', 'C03' ), floor=2 )
+def p_routefirst( ctx ):
+    """Logix.request is what every member of a Multiple Service Packet ( and every connected request ) enters through, whatever Object its path
+    names; a request sent alone is taken to that Object directly.  Both ways serve the same Object only if the router hands the WHOLE
+    request on first: `target = self.route( data, fail=ROUTE_FALSE ); if target: return target.request( data, addr=addr )` dominates every
+    other use of the request in the handler ( service dispatch, attribute lookup ... ) - tested first for its own services, the router
+    would serve a Read / Write Tag for a tag that lives in another Object itself ( bundled: error 0x05; alone: served )."""
+    res = Result( 'P-ROUTEFIRST' )
+    src = ctx.src( LOGIX )
+    fn = src.get( 'Logix.request' )
+    DATA = fn.args.args[1].arg
+    cfg = CFG( fn )
+    routes = [ n for n in cfg.nodes if n.kind == 'stmt' and isinstance( n.stmt, ast.Assign ) and is_call_to( n.stmt.value, 'self.route' )
+               and n.stmt.value.args and dotted( n.stmt.value.args[0] ) == DATA and isinstance( n.stmt.targets[0], ast.Name ) ]
+    if len( routes ) != 1:
+        if not routes:
+            res.bad( src, fn, 'Logix.request: no routing of the whole request ( self.route( %s ... ))' % DATA, 'a request whose path names another Object is served by the Message Router itself' )
+            return res
+        raise AnalysisError( 'Logix.request: %d self.route( %s ) calls' % ( len( routes ), DATA ))
+    rt = routes[0]
+    T = rt.stmt.targets[0].id
+    tests = [ n for n in cfg.nodes if n.kind == 'test' and isinstance( n.stmt, ast.If ) and isinstance( n.expr, ast.Name ) and n.expr.id == T ]
+    hand = [ n for n in cfg.nodes if n.kind == 'stmt' and isinstance( n.stmt, ast.Return ) and n.stmt.value is not None and pmatch( n.stmt.value, '%s.request( %s, addr=addr )' % ( T, DATA )) is not None ]
+    if not tests or not hand or not any( h.stmt in ast.walk( t.stmt ) for t in tests for h in hand ):
+        res.bad( src, rt.stmt, 'Logix.request: the routed target does not take the request over ( if %s: return %s.request( %s, addr=addr ))' % ( T, T, DATA ),
+                 'a request whose path names another Object must be answered by that Object, with the session address' )
+        return res
+    res.ok( src, hand[0].stmt, 'the routed target takes the whole request over: return %s.request( %s, addr=addr )' % ( T, DATA ))
+    dom = cfg.dominators()
+    def is_log( stmt ):
+        return isinstance( stmt, ast.Expr ) and isinstance( stmt.value, ast.Call ) and ( call_name( stmt.value ) or '' ).startswith( 'log.' )
+    late = []
+    for n in cfg.nodes:
+        own = n.own()
+        if own is None or n is rt or n in hand or n.stmt is None:
+            continue
+        if n.kind == 'stmt' and is_log( n.stmt ):
+            continue
+        if any( is_log( a ) for a in src.ancestors( n.stmt )) or any( isinstance( a, ast.If ) and pmatch( a.test, 'log.isEnabledFor( __ )' ) is not None for a in src.ancestors( n.stmt )):
+            continue
+        if n.kind == 'test' and pmatch( n.expr, 'log.isEnabledFor( __ )' ) is not None:
+            continue
+        if DATA in names_in( own ) and not cfg.dominates( tests[0], n, dom ):
+            late.append( n )
+    if late:
+        late.sort( key=lambda n: getattr( n.stmt, 'lineno', 0 ))
+        res.bad( src, late[0].stmt, 'Logix.request: %s uses the request before it was offered to the Object its path names' % norm_text( ast.unparse( late[0].own() ))[:80],
+                 'inside a Multiple Service Packet ( or on a connection ) a Read / Write Tag for a tag bound to another Object is served by the Message Router itself - refused with 0x05 where the same request sent alone is served' )
+    else:
+        res.ok( src, rt.stmt, 'every use of the request in the handler is dominated by the routing step' )
+    return res
